@@ -308,6 +308,15 @@ func c05PayloadOn(c *ctx, sc schemaSpec, schema *jsonapi.Schema, payload string,
 	c.count(fmt.Sprintf("valid-json=%v", tree != nil))
 	c.count("how:" + strings.SplitN(how, "+", 2)[0])
 	feature := fmt.Sprintf("%s json=%v ok=%d panic=%d", strings.SplitN(how, "+", 2)[0], tree != nil, nok, npanic)
+	if tree != nil && dupArrayOfObjects(tree) {
+		// one member given twice (names compared as encoding/json does) with arrays of objects:
+		// the decoder reuses the first array's elements for the second, so members absent from
+		// the second copy keep the first copy's values - a quirk of the standard library that the
+		// model does not carry; such payloads are judged by the oracle alone
+		k := c.add("bytes", payload, feature+" repeated-array-member", false, oL(nil), oL(nil), key, detail)
+		k.Replay = how
+		return
+	}
 	if tree == nil {
 		// not JSON: every entry point must fail before any modelled logic
 		for i, r := range results[:6] {
@@ -322,6 +331,45 @@ func c05PayloadOn(c *ctx, sc schemaSpec, schema *jsonapi.Schema, payload string,
 	k := c.add("payload", payload, feature, false,
 		fmt.Sprintf("(run_c05 %s %s %s)", env.gallina(), sc.gallina(), tree.gallina()), oL(obsParts), key, detail)
 	k.Replay = how
+}
+
+// dupArrayOfObjects reports whether some object of the tree has two members whose names
+// encoding/json would match to one field and whose values are both arrays holding an object.
+func dupArrayOfObjects(n *jnode) bool {
+	if n == nil {
+		return false
+	}
+	holdsObj := func(v *jnode) bool {
+		if v == nil || v.kind != "arr" {
+			return false
+		}
+		for _, x := range v.arr {
+			if x != nil && x.kind == "obj" {
+				return true
+			}
+		}
+		return false
+	}
+	if n.kind == "obj" {
+		for i := range n.keys {
+			for j := i + 1; j < len(n.keys); j++ {
+				if strings.EqualFold(n.keys[i], n.keys[j]) && holdsObj(n.vals[i]) && holdsObj(n.vals[j]) {
+					return true
+				}
+			}
+		}
+		for _, v := range n.vals {
+			if dupArrayOfObjects(v) {
+				return true
+			}
+		}
+	}
+	for _, v := range n.arr {
+		if dupArrayOfObjects(v) {
+			return true
+		}
+	}
+	return false
 }
 
 func c05BigBody(c *ctx, sc schemaSpec, body string) {
